@@ -32,6 +32,13 @@ func (w *World) callLocalPtrD(v ssa.Value, onStack map[ssa.Value]bool, depth int
 	switch x := v.(type) {
 	case *ssa.Alloc:
 		return !w.addrLeaks(x, map[ssa.Value]bool{})
+	case *ssa.IndexAddr:
+		// a row of a local array that is only filled by its own function and read by
+		// the helpers it is handed to as a slice (pxlocaltab.go): it dies with the call
+		if al, ok := x.X.(*ssa.Alloc); ok {
+			return w.localTable(al)
+		}
+		return false
 	case *ssa.Phi:
 		for _, e := range x.Edges {
 			if !w.callLocalPtrD(e, onStack, depth+1) {
